@@ -601,6 +601,23 @@ func (ea *effectAnalysis) analyse(fn *ssa.Function) bool {
 						}
 					}
 				}
+				// any other library method called on a package-level variable (a sync.Pool, a cache type, ...) also reads
+				// it: what it hands out may come from an earlier call. Pure stores and lock operations read nothing.
+				if sc := com.StaticCallee(); sc != nil && sc.Signature.Recv() != nil && len(com.Args) > 0 {
+					if idx, listed := extWrites[name]; !(listed && idx < 0) && !strings.HasSuffix(name, ").Store") {
+						base := com.Args[0]
+						for {
+							if fa, ok := base.(*ssa.FieldAddr); ok {
+								base = fa.X
+								continue
+							}
+							break
+						}
+						if g, ok := base.(*ssa.Global); ok {
+							sum.globReads[g] = true
+						}
+					}
+				}
 				if idx, ok := extWrites[name]; ok && idx >= 0 && idx < len(com.Args) {
 					addWrite(st.ownOf(com.Args[idx]), name+" writes through "+valueDesc(com.Args[idx]), "call:"+name, in, nil, fn, m.InstrPos(in))
 				}
